@@ -588,4 +588,100 @@ def toMatrix3 (a : Val K) : Val K :=
 
 end Val
 
+
+/-! ### Item programs: the wire format of the driver as an inductive type
+
+  One constructor per primitive item operation; `ProgW.run` dispatches to the `Val.*` formulas above.
+  The driver (`Driver/C06.lean`) parses a request into a `ProgW Float` and calls `ProgW.run`; the
+  composition theorems (`progw_rep`, `progw_sound`, Lemmas/DualProg.lean) are about `ProgW ℝ` and the
+  same `run`. -/
+
+inductive Ty where
+  | S | V2 | V3 | Q | M2 | M3
+  deriving DecidableEq, Repr
+
+def Ty.len : Ty → Nat
+  | .S => 1 | .V2 => 2 | .V3 => 3 | .Q => 4 | .M2 => 4 | .M3 => 9
+
+inductive ProgW (K : Type) where
+  | opd (τ : Ty) (idx : List Nat)
+  | lit (c : K)
+  | add (a b : ProgW K) | sub (a b : ProgW K) | neg (a : ProgW K)
+  | nscale (c : K) (a : ProgW K) | ndiv (a : ProgW K) (c : K)
+  | smul (a s : ProgW K) | sdiv (a s : ProgW K)
+  | sc1 (f : E K) (a : ProgW K) | sc2 (f : E K) (a b : ProgW K)
+  | dot (a b : ProgW K) | normSq (a : ProgW K) | norm (a : ProgW K)
+  | cross3 (a b : ProgW K) | cross2 (a b : ProgW K) | outer (a b : ProgW K)
+  | emul (a b : ProgW K) | ediv (a b : ProgW K)
+  | comp (i : Nat) (a : ProgW K) | slice (i j : Nat) (a : ProgW K)
+  | cat (a b : ProgW K) | rowcat3 (a b c : ProgW K) | widen (a b : ProgW K)
+  | matmul (m k n : Nat) (a b : ProgW K) | transpose (m n : Nat) (a : ProgW K) | inverse (n : Nat) (a : ProgW K)
+  | rot (axis : Nat) (a : ProgW K)
+  | qmul (a b : ProgW K) | qconj (a : ProgW K)
+  /-- `Quaternion.to_matrix3` -/
+  | toMatrix3 (a : ProgW K)
+
+namespace ProgW
+
+/-- evaluation with the source's item-level formulas (the `Val.*` definitions the driver executes) -/
+def run (env : Nat → K) (denv : Nat → Option K) (um : Nat → Bool) : ProgW K → Val K
+  | opd _ idx => Val.opd idx env denv um
+  | lit c => ⟨[c], none, true⟩
+  | add a b => Val.add (a.run env denv um) (b.run env denv um)
+  | sub a b => Val.sub (a.run env denv um) (b.run env denv um)
+  | neg a => Val.neg (a.run env denv um)
+  | nscale c a => Val.nscale c (a.run env denv um)
+  | ndiv a c => Val.ndiv (a.run env denv um) c
+  | smul a s => Val.smul (a.run env denv um) (s.run env denv um)
+  | sdiv a s => Val.sdiv (a.run env denv um) (s.run env denv um)
+  | sc1 f a => Val.sc1 f (a.run env denv um)
+  | sc2 f a b => Val.sc2 f (a.run env denv um) (b.run env denv um)
+  | dot a b => Val.dot (a.run env denv um) (b.run env denv um)
+  | normSq a => Val.normSq (a.run env denv um)
+  | norm a => Val.norm (a.run env denv um)
+  | cross3 a b => Val.cross3 (a.run env denv um) (b.run env denv um)
+  | cross2 a b => Val.cross2 (a.run env denv um) (b.run env denv um)
+  | outer a b => Val.outer (a.run env denv um) (b.run env denv um)
+  | emul a b => Val.emul (a.run env denv um) (b.run env denv um)
+  | ediv a b => Val.ediv (a.run env denv um) (b.run env denv um)
+  | comp i a => Val.comp i (a.run env denv um)
+  | slice i j a => Val.slice i j (a.run env denv um)
+  | cat a b => Val.cat (a.run env denv um) (b.run env denv um)
+  | rowcat3 a b c => Val.cat (Val.cat (a.run env denv um) (b.run env denv um)) (c.run env denv um)
+  | widen a b => Val.widen (a.run env denv um) (b.run env denv um)
+  | matmul m k n a b => Val.matmul m k n (a.run env denv um) (b.run env denv um)
+  | transpose m n a => Val.transpose m n (a.run env denv um)
+  | inverse n a => Val.inverse n (a.run env denv um)
+  | rot axis a => Val.rot axis (a.run env denv um)
+  | qmul a b => Val.qmul (a.run env denv um) (b.run env denv um)
+  | qconj a => Val.qconj (a.run env denv um)
+  | toMatrix3 a => Val.toMatrix3 (a.run env denv um)
+
+/-! composite methods as program-building functions (the compositions of the source) -/
+def unit (a : ProgW K) : ProgW K := sdiv a (norm a)
+def proj (a b : ProgW K) : ProgW K := smul (unit b) (dot a (unit b))
+def perp (a b : ProgW K) : ProgW K := sub a (smul (unit b) (dot a (unit b)))
+def ucross (a b : ProgW K) : ProgW K := unit (cross3 a b)
+def withNorm (a n : ProgW K) : ProgW K := smul a (sc2 (.div (.var 0) (.var 1)) n (norm a))
+def qrecip (a : ProgW K) : ProgW K := sdiv (qconj a) (normSq a)
+def mdiv (n : Nat) (a b : ProgW K) : ProgW K := matmul n n n a (inverse n b)
+def fromRotation (a v : ProgW K) : ProgW K :=
+  cat (sc1 (.cos (.var 0)) (nscale half a)) (smul v (sdiv (sc1 (.sin (.var 0)) (nscale half a)) (norm v)))
+def toRotation0 (q : ProgW K) : ProgW K :=
+  nscale two (sc2 (.atan2 (.var 0) (.var 1)) (norm (slice 1 4 q)) (comp 0 q))
+def toRotation1 (q : ProgW K) : ProgW K := sdiv (slice 1 4 q) (norm (slice 1 4 q))
+def sep (a b : ProgW K) : ProgW K :=
+  add (smul (nscale two (sc1 (.sgn (.var 0)) (dot (unit a) (unit b))))
+        (sc1 (.asin (.var 0))
+          (nscale half (norm (sub (unit a) (smul (unit b) (sc1 (.sgn (.var 0)) (dot (unit a) (unit b)))))))))
+      (nscale pi (sc1 (.isneg (.var 0)) (sc1 (.sgn (.var 0)) (dot (unit a) (unit b)))))
+def twovec (axis1 axis2 : Nat) (v1 v2 : ProgW K) : ProgW K :=
+  let u1 := unit v1
+  let u3 := if (3 + axis2 - axis1) % 3 = 1 then ucross u1 v2 else ucross v2 u1
+  let u2 := if (3 + axis2 - axis1) % 3 = 1 then ucross u3 u1 else ucross u1 u3
+  let row := fun i : Nat => if i = axis1 then u1 else if i = axis2 then u2 else u3
+  rowcat3 (row 0) (row 1) (row 2)
+
+end ProgW
+
 end PMV.Dual
